@@ -59,6 +59,12 @@ class RefError(Exception):
     pass
 
 
+# C06 / C07 judge values: an `n_bytes(-1)` ("all remaining bytes") that would be EMPTY is outside their domain - they switch this on so
+# that arbitrary byte strings which end exactly where such a member begins are not taken for decodable values.  C08 (which prescribes
+# the error for that very situation) leaves it off.
+EMPTY_REST_IS_ERROR = False
+
+
 class Short(RefError):
     """Buffer ended.  pos = where the failing read started, remaining = bytes left there."""
 
@@ -274,6 +280,10 @@ def decode(desc, data, pos=0):
         return [bool(n >> i & 1) for i in range(8 * desc[1])], pos
     if k == "bytes":
         if desc[1] == -1:
+            if EMPTY_REST_IS_ERROR and pos >= len(data):
+                # "all remaining bytes" with nothing remaining: outside the judged domain of C06 / C07 (the library raises
+                # BufferEmptyError there, which is what C08 prescribes when no byte remains where a value should start)
+                raise RefError("rest-of-buffer value would be empty")
             return bytes(data[pos:]), len(data)
         b, pos = _take(data, pos, desc[1])
         return bytes(b), pos
